@@ -102,6 +102,9 @@ func (u c06Uni) alphabet() (ops []mOp, inGuard []bool) {
 		add(f, true)
 	}
 	add(mOp{Kind: "removefiltered", Pt: u.Pt, Fi: 0, Fvs: []string{}}, true) // empty filter: error
+	// filters wider than the rules whose surplus values are empty: the surplus is a wildcard
+	add(mOp{Kind: "removefiltered", Pt: u.Pt, Fi: 0, Fvs: append(append([]string{R[0][0]}, make([]string, len(R[0])-1)...), "")}, true)
+	add(mOp{Kind: "removefiltered", Pt: u.Pt, Fi: len(R[0]) - 1, Fvs: []string{R[0][len(R[0])-1], ""}}, true)
 	add(mOp{Kind: "clear"}, true)
 	return
 }
